@@ -205,7 +205,7 @@ def run_case(case, rep=None, count_only=False):
             if s == 'mis-load':
                 continue
             if incomplete:
-                bad.append((f'incomplete-entry-reported-cached/{case["mode"]}', f'{s}: killed at {out["fired"]}; post-kill '
+                bad.append((f'incomplete-entry-reported-cached/{case["mode"]}:{sig}', f'{s}: killed at {out["fired"]}; post-kill '
                             f'state {sig}; is_cached={reported}'))
             else:
                 bad.append((f'{s.split(":")[0]}-with-complete-entry/{case["mode"]}', f'{s} although the entry looks '
